@@ -150,7 +150,10 @@ type MXTx struct {
 	MailParams string
 	Rcpts      []string // accepted
 	RcptsAll   []string
-	Data       []byte
+	// RcptPerm: recipients whose RCPT command was answered with a permanent
+	// failure in this transaction
+	RcptPerm []string
+	Data     []byte
 	FinalCode  int
 	PerRcpt    map[string]int
 	ReplyLost  bool
@@ -264,7 +267,7 @@ func (m *ScriptedMX) handle(raw net.Conn, id int) {
 	}
 	tlsOn := false
 	var from, mailParams string
-	var rcpts, rcptsAll []string
+	var rcpts, rcptsAll, rcptPerm []string
 	connTx := 0
 	mailStep := 0
 	for {
@@ -357,7 +360,7 @@ func (m *ScriptedMX) handle(raw net.Conn, id int) {
 				continue
 			}
 			from, mailParams = strings.Trim(addr, "<>"), params
-			rcpts, rcptsAll = nil, nil
+			rcpts, rcptsAll, rcptPerm = nil, nil, nil
 			if s := simrt.Cur(); s != nil {
 				mailStep = s.Steps()
 			}
@@ -383,6 +386,10 @@ func (m *ScriptedMX) handle(raw net.Conn, id int) {
 				}
 				send(m.reply(o, 250, ""))
 				m.logf("c%d RCPT %s -> %v", id, addr, o)
+				if o == Perm && !m.Plan.Perm552 {
+					// (552 may legitimately be treated like 452 and retried)
+					rcptPerm = append(rcptPerm, addr)
+				}
 				continue
 			}
 			rcpts = append(rcpts, addr)
@@ -434,7 +441,7 @@ func (m *ScriptedMX) handle(raw net.Conn, id int) {
 			n := m.nFinal
 			m.nFinal++
 			tx := &MXTx{N: len(m.Txs) + 1, Host: m.Host, ConnID: id, ConnTxN: connTx, TLS: tlsOn, Cert: m.Plan.Cert, From: from, MailParams: mailParams,
-				Rcpts: append([]string(nil), rcpts...), RcptsAll: append([]string(nil), rcptsAll...), Data: data, PerRcpt: map[string]int{}}
+				Rcpts: append([]string(nil), rcpts...), RcptsAll: append([]string(nil), rcptsAll...), RcptPerm: append([]string(nil), rcptPerm...), Data: data, PerRcpt: map[string]int{}}
 			if s := simrt.Cur(); s != nil {
 				tx.At, tx.Step = s.Now(), s.Steps()
 				tx.MailStep = mailStep
@@ -495,9 +502,9 @@ func (m *ScriptedMX) handle(raw net.Conn, id int) {
 					return
 				}
 			}
-			from, rcpts, rcptsAll = "", nil, nil
+			from, rcpts, rcptsAll, rcptPerm = "", nil, nil, nil
 		case up == "RSET":
-			from, rcpts, rcptsAll = "", nil, nil
+			from, rcpts, rcptsAll, rcptPerm = "", nil, nil, nil
 			send("250 2.0.0 reset")
 		case up == "NOOP":
 			send("250 2.0.0 ok")
